@@ -200,17 +200,18 @@ def Ite(c, a, b):
     if z3.is_bool(ta):
         return SBool(z3.If(c.t, ta, tb))
     ta, tb = _both(ta, tb)
-    return SNum(z3.If(c.t, ta, tb))
+    return SNum(z3.If(c.t, ta, tb), _deg_same(a, b, "ite"))
 
 
 class SNum:
     """A symbolic number (z3 Int or Real term)."""
 
-    __slots__ = ("t",)
+    __slots__ = ("t", "deg")
     __array_priority__ = 1000
 
-    def __init__(self, t):
+    def __init__(self, t, deg=0):
         self.t = t
+        self.deg = deg  # degree in the angle unit (only checked when the context normalises angles)
 
     # -- helpers
     @property
@@ -273,13 +274,13 @@ class SNum:
         return self._bin(o, "pow", True)
 
     def __neg__(self):
-        return SNum(-self.t)
+        return SNum(-self.t, self.deg)
 
     def __pos__(self):
         return self
 
     def __abs__(self):
-        return SNum(z3.If(self.t >= 0, self.t, -self.t))
+        return SNum(z3.If(self.t >= 0, self.t, -self.t), self.deg)
 
     # comparisons
     def _cmp(self, o, f):
@@ -290,6 +291,7 @@ class SNum:
             return NotImplemented
         if not isinstance(o, (SNum, SBool)) and not is_num(o) and not isinstance(o, (bool, np.bool_)):
             return NotImplemented
+        _deg_same(self, o, "comparison")
         a, b = _both(self.t, _as_arith(o))
         return SBool(f(a, b))
 
@@ -425,13 +427,69 @@ def snum(x):
     return x if isinstance(x, SNum) else SNum(term(x))
 
 
+def _deg(x):
+    return x.deg if isinstance(x, SNum) else 0
+
+
+def _is_zero_lit(x):
+    if isinstance(x, SNum):
+        v = _num_val(x.t) if z3.is_const(x.t) else None
+        return v == 0
+    return is_num(x) and x == 0
+
+
+def _deg_same(a, b, what):
+    c = _CTX
+    if c is None or not c.norm_angles:
+        return _deg(a)
+    da, db = _deg(a), _deg(b)
+    if da == db:
+        return da
+    if _is_zero_lit(a):
+        return db
+    if _is_zero_lit(b):
+        return da
+    raise Unsupported(f"angle-unit inhomogeneous {what}: degrees {da} vs {db} (period normalisation not applicable)")
+
+
+def _deg_of(op, a, b):
+    c = _CTX
+    if c is None or not c.norm_angles:
+        return 0
+    da, db = _deg(a), _deg(b)
+    if op in ("add", "sub"):
+        return _deg_same(a, b, op)
+    if op == "mul":
+        return da + db
+    if op == "div":
+        return da - db
+    if op == "floordiv":
+        _deg_same(a, b, op)
+        return 0
+    if op == "mod":
+        return _deg_same(a, b, op)
+    if op == "pow":
+        if db != 0:
+            raise Unsupported("angle in exponent")
+        if da == 0:
+            return 0
+        v = _num_val(_as_arith(b))
+        if v is None or (da * v).denominator != 1:
+            raise Unsupported("non-integral angle degree")
+        return int(da * v)
+    return 0
+
+
 def _arith(op, a, b):
     """a op b on numbers of which at least one is symbolic."""
     ta, tb = _as_arith(a), _as_arith(b)
     c = _CTX
+    dg = _deg_of(op, a, b)
     if c is not None and c.fmode and (ta.sort() == z3.RealSort() or tb.sort() == z3.RealSort() or op == "div"):
-        return c.round_op(op, ta, tb)
-    return SNum(_arith_exact(op, ta, tb))
+        r = c.round_op(op, ta, tb)
+        r.deg = dg
+        return r
+    return SNum(_arith_exact(op, ta, tb), dg)
 
 
 def _arith_exact(op, ta, tb):
@@ -491,7 +549,54 @@ def _floor_term(r):
 # function symbols.  Each application is a fresh real constant keyed by the (hash-consed)
 # argument terms; axioms are instantiated per application by the context (axioms.py).
 
+_UF_DEG = {"sin": (1, 0), "cos": (1, 0), "tan": (1, 0), "arcsin": (0, 1), "arccos": (0, 1), "arctan": (0, 1),
+           "exp": (0, 0), "log": (0, 0), "log10": (0, 0)}
+
+
+def _uf_deg(name, args):
+    c = _CTX
+    if c is None or not c.norm_angles:
+        return 0
+    if name in _UF_DEG:
+        need, out = _UF_DEG[name]
+        if _deg(args[0]) != need and not _is_zero_lit(args[0]):
+            raise Unsupported(f"angle-unit inhomogeneous {name}() of a degree-{_deg(args[0])} value")
+        return out
+    if name == "arctan2":
+        _deg_same(args[0], args[1], "arctan2")
+        return 1
+    if name == "sqrt":
+        d = _deg(args[0])
+        if d % 2:
+            raise Unsupported("sqrt of odd angle degree")
+        return d // 2
+    if any(_deg(a) for a in args):
+        raise Unsupported(f"angle passed to {name}")
+    return 0
+
+
+def _domain_check(name, args):
+    c = _CTX
+    if c is None or not c.domain_checks or c.in_spec:
+        return
+    x = _real(_as_arith(args[0]))
+    if name == "sqrt":
+        c.ensure("domain", x >= 0, "sqrt argument")
+    elif name in ("arcsin", "arccos"):
+        c.ensure("domain", z3.And(x >= -1, x <= 1), f"{name} argument")
+    elif name in ("log", "log10"):
+        c.ensure("domain", x > 0, f"{name} argument")
+
+
 def fn_uf(name, *args):
+    dg = _uf_deg(name, args)
+    _domain_check(name, args)
+    r = _fn_uf(name, *args)
+    r.deg = dg
+    return r
+
+
+def _fn_uf(name, *args):
     ts = [_real(_as_arith(a)) for a in args]
     vals = [_num_val(t) for t in ts]
     if all(v is not None for v in vals):
@@ -567,6 +672,8 @@ def fn_exp(x):
 
 
 def fn_floor(x):
+    if _deg(x) != 0 and _CTX is not None and _CTX.norm_angles:
+        raise Unsupported("fn_floor of an angle (not unit-invariant)")
     """floor -> symbolic *integer-valued* number (kept Int sorted: exact)."""
     t = _as_arith(x)
     if t.sort() == z3.IntSort():
@@ -575,13 +682,18 @@ def fn_floor(x):
 
 
 def fn_trunc(x):
+    if _deg(x) != 0 and _CTX is not None and _CTX.norm_angles:
+        raise Unsupported("fn_trunc of an angle (not unit-invariant)")
     t = _as_arith(x)
     if t.sort() == z3.IntSort():
         return SNum(t)
-    return SNum(z3.If(t >= 0, z3.ToInt(t), -z3.ToInt(-t)))
+    ft = z3.ToInt(t)
+    return SNum(ft + z3.If(z3.And(t < 0, t != z3.ToReal(ft)), 1, 0))
 
 
 def fn_round_half_even(x):
+    if _deg(x) != 0 and _CTX is not None and _CTX.norm_angles:
+        raise Unsupported("fn_round_half_even of an angle (not unit-invariant)")
     t = _as_arith(x)
     if t.sort() == z3.IntSort():
         return SNum(t)
@@ -647,6 +759,8 @@ class GVec:
         return gdot(self, o)
 
     def __getitem__(self, i):
+        if isinstance(i, slice) and i.start in (None, 0) and i.stop == 3 and i.step is None:
+            return self  # position part of a state whose position is this abstract 3-vector
         raise Unsupported("component access on an abstract (Gram) vector")
 
     def __repr__(self):
@@ -669,10 +783,18 @@ def gnorm(a):
 # --------------------------------------------------------------------------------------------
 # numpy ufunc dispatch
 
+def _box(x):
+    if isinstance(x, np.ndarray):
+        return x.astype(object)
+    b = np.empty((), dtype=object)
+    b[()] = x
+    return b
+
+
 def _elementwise(f, *args):
     if any(isinstance(a, np.ndarray) and a.shape != () for a in args):
         g = np.frompyfunc(f, len(args), 1)
-        return g(*[a.astype(object) if isinstance(a, np.ndarray) else a for a in args])
+        return g(*[_box(a) for a in args])
     args = [a.item() if isinstance(a, np.ndarray) else a for a in args]
     return f(*args)
 
@@ -697,8 +819,9 @@ def _u_fmod(a, b):
     """C fmod: result has the sign of the dividend (truncated quotient)."""
     ta, tb = _real(_as_arith(a)), _real(_as_arith(b))
     q = ta / tb
-    tq = z3.If(q >= 0, z3.ToInt(q), -z3.ToInt(-q))
-    return SNum(ta - tb * z3.ToReal(tq))
+    fq = z3.ToInt(q)
+    tq = fq + z3.If(z3.And(q < 0, q != z3.ToReal(fq)), 1, 0)  # truncation expressed with a single floor
+    return SNum(ta - tb * z3.ToReal(tq), _deg_same(a, b, "fmod"))
 
 
 def _u_max(a, b):
